@@ -629,6 +629,9 @@ func (e *engine) Run(src *vs.Source, tier string, idx int64) *simkit.RunResult {
 	}
 	other, _, _ := makeRecord(src.Stream("other"), format, uint64(m.Intn(7, "othertype")), "quick")
 	res.Stats["records"]++
+	if _, ok := desc["wide_members"]; ok {
+		res.Stats["wide_records"]++ // very many tiny members (wide.go)
+	}
 	res.Stats["record_bytes"] += int64(len(rec))
 	if int64(len(rec)) > res.Max["record_bytes"] {
 		res.Max["record_bytes"] = int64(len(rec))
@@ -772,7 +775,23 @@ func makeRecordUnsafe(m *vs.Stream, format int, typ uint64, tier string) ([]byte
 	cfg.ForceType = 1 + int(m.Force(7, "gtype", typ))
 	g := gen.New(m, lat, cfg)
 	var geo geom.Geometry
-	if cfg.Invalid {
+	if m.Intn(12, "wide") == 11 {
+		// very many tiny members (wide.go), cut down until the document fits the domain
+		n, ct, variant := wideDraw(m)
+		limit := 60 << 10
+		if format == fFeatureCollection {
+			limit = 19 << 10 // up to three features carry the same geometry
+		}
+		for {
+			geo = wideBuild(n, ct, uint64(cfg.ForceType-1), variant)
+			if n <= 8 || wideSize(geo, format) <= limit {
+				break
+			}
+			n = n * 2 / 3
+		}
+		cfg.Invalid = false
+		desc["wide_members"] = n
+	} else if cfg.Invalid {
 		geo = g.Geometry(cfg.Depth)
 	} else {
 		geo = g.Valid(cfg.Depth)
